@@ -463,5 +463,5 @@ pub fn gen_body(r: &mut Rng, mode: Mode, pool: &Pool) -> E {
         },
         m => { let d = r.range(0, 4) as u32; gen_num(r, m, d, pool) }
     };
-    match r.below(4) { 0 => paren(e), 1 if matches!(e, E::Paren(_)) => paren(e), _ => match e { E::Bin(..) | E::Cond(..) => paren(e), E::Un(..) | E::Cast(..) if r.chance(1, 2) => paren(e), e => e } }
+    match r.below(4) { 0 => paren(e), 1 if matches!(e, E::Paren(_)) => paren(e), _ => match e { E::Bin(..) | E::Cond(..) => if r.chance(1, 5) { e } else { paren(e) }, E::Un(..) | E::Cast(..) if r.chance(1, 2) => paren(e), e => e } }
 }
